@@ -1,4 +1,5 @@
 import SaphyrModel.Load
+import SaphyrModel.Proofs.Erase
 /-! # C19 — All node types and loading modes hold the same data (loader model)
 
 The four Rust node types are one model type: the marked kinds carry spans, the bare kinds have the
@@ -44,5 +45,24 @@ theorem lazy_scalar_eq_eager (marked : Bool) (v : Str) (st : ScalarStyle) (tag :
 /-- equality of nodes ignores spans: re-spanning a node does not change what it is equal to -/
 theorem eqv_withSpan (a b : Node) (sp : Span) : Node.eqv (Node.withSpan true a sp) b = Node.eqv a b := by
   cases a <;> cases b <;> simp [Node.withSpan, Node.eqv]
+
+/-- **Marked and bare node types hold the same data, for every event list.** Loading any event
+    sequence (well nested or not, eager or deferred scalars) into the marked node type and then
+    forgetting the spans gives exactly what loading it into the bare node type gives — the same
+    documents, the same open collections, the same anchor table, and a panic site in one exactly when
+    in the other. Marked nodes differ from bare ones only by carrying spans. -/
+theorem kinds_agree (early : Bool) (evs : List (Event × Span)) :
+    foldEvents ⟨false, early⟩ {} evs = (foldEvents ⟨true, early⟩ {} evs).erase :=
+  foldEvents_erase early {} evs
+
+/-- equality (and therefore hashing-by-equality lookups) of marked nodes ignores the spans entirely -/
+theorem marked_eq_ignores_spans (a b : Node) : Node.eqv a.erase b.erase = Node.eqv a b := eqv_erase a b
+
+/-- non-vacuity: a marked load of `[x]` really carries spans that the bare load does not -/
+example :
+    let sp : Span := ⟨⟨2, 1, 2⟩, ⟨3, 1, 3⟩⟩
+    let evs : List (Event × Span) := [(.sequenceStart 0 none, sp), (.scalar ['x'] .plain 0 none, sp), (.sequenceEnd, sp)]
+    (match foldEvents ⟨true, true⟩ {} evs with | .ok s => s.docStack.map (fun p : Node × Nat => Node.isBad p.1 || (match p.1 with | .seq sp _ => sp.start.index == 2 | _ => false)) | .panic _ => []) ≠
+    (match foldEvents ⟨false, true⟩ {} evs with | .ok s => s.docStack.map (fun p : Node × Nat => Node.isBad p.1 || (match p.1 with | .seq sp _ => sp.start.index == 2 | _ => false)) | .panic _ => []) := by decide
 
 end SaphyrModel.C19
